@@ -18,7 +18,8 @@ ObsMod(S) == [cache |-> S.cache, hw |-> S.hw, wd |-> S.wd, calls |-> S.calls, up
 Exp(detail) == [mods |-> [x \in detail |-> ObsMod(st'[x])],
                 same |-> \A x \in Mods \ detail : Core(st'[x]) = Core(st[x]) /\ st'[x].calls = <<>> /\ st'[x].upd = <<>>,
                 res |-> last'.res, verdict |-> last'.verdict,
-                polls |-> IF last'.act = "define" /\ last'.verdict = "ok" THEN PollFlags(lay') ELSE <<>>]
+                polls |-> IF last'.act = "define" /\ last'.verdict = "ok" THEN PollFlags(lay') ELSE <<>>,
+                hkeys |-> IF last'.act = "define" /\ last'.verdict = "ok" THEN HandlerKeys(lay') ELSE <<>>]
 Rec(inp, detail) == hist' = Append(hist, inp @@ [exp |-> Exp(detail)])
 One(m, inp) == Rec(inp @@ [mod |-> m], {m})
 
@@ -27,21 +28,25 @@ GNext ==
     \/ \E L \in Layouts : /\ (phase = "undef" \/ L.name = lay.fix)
                           /\ Define(L, {}) /\ Rec([act |-> "define", lay |-> L], {})
     \/ Start({}) /\ Rec([act |-> "start"], Mods)
-    \/ \E k \in ParamSet :
+    \* before the poll threads are started: a driver (or an early client) writes and reads
+    \/ /\ phase = "new"
+       /\ \E k \in ParamSet : \/ (Change("m", k, 3, {}) /\ One("m", [act |-> "change", key |-> k, val |-> 3]))
+                                \/ (Read("m", k, {}) /\ One("m", [act |-> "read", key |-> k]))
+    \/ phase = "run" /\ \E k \in ParamSet :
          \/ Read("m", k, {}) /\ One("m", [act |-> "read", key |-> k])
-         \/ \E v \in ReqVals : Change("m", k, v, {}) /\ One("m", [act |-> "change", key |-> k, val |-> v])
+         \/ \E v \in ReqVals : (v = BadReq => k = "a") /\ Change("m", k, v, {}) /\ One("m", [act |-> "change", key |-> k, val |-> v])
          \/ \E v \in {2, X} : (v = X => k = "a") /\ Assign("m", k, v) /\ One("m", [act |-> "assign", key |-> k, val |-> v])
-         \/ \E v \in {1, X} : HwSet("m", k, v) /\ One("m", [act |-> "hwset", key |-> k, val |-> v])
+         \/ \E v \in {0, X} : HwSet("m", k, v) /\ One("m", [act |-> "hwset", key |-> k, val |-> v])
     \/ Poll("m", {}) /\ One("m", [act |-> "poll"])
-    \/ \E fn \in Fns(lay) :
+    \/ phase = "run" /\ \E fn \in Fns(lay) :
          \/ CallCommon("m", fn) /\ One("m", [act |-> "callcommon", fn |-> fn])
          \/ \E md \in GenModes : SetMode("m", fn, md) /\ One("m", [act |-> "setmode", fn |-> fn, mode |-> md])
-    \/ /\ GenBy
+    \/ /\ GenBy /\ phase = "run"
        /\ \E x \in {"n", "p"} :
             \/ Read(x, "a", {}) /\ One(x, [act |-> "read", key |-> "a"])
             \/ Change(x, "b", 3, {}) /\ One(x, [act |-> "change", key |-> "b", val |-> 3])
             \/ Poll(x, {}) /\ One(x, [act |-> "poll"])
-            \/ HwSet(x, "a", 1) /\ One(x, [act |-> "hwset", key |-> "a", val |-> 1])
+            \/ HwSet(x, "a", 0) /\ One(x, [act |-> "hwset", key |-> "a", val |-> 0])
 GSpec == GInit /\ [][GNext]_<<vars, hist>>
 
 Bound == TLCGet("level") <= Depth
